@@ -8,7 +8,8 @@ def f2(alpha, beta, gamma=0.5): EVALS.append(1); return repr(('f2', alpha, beta,
 def f3(value, factor): EVALS.append(1); return repr(('f3', type(value).__name__, type(factor).__name__))
 class K(object):
     def m(self, u, v=1, **kw): return ('m', u, v, sorted(kw.items()))
-FUNCS = {'f1': f1, 'f2': f2, 'f3': f3}
+def f4(alpha, beta, gamma, delta, z): EVALS.append(1); return repr(('f4', z))
+FUNCS = {'f1': f1, 'f2': f2, 'f3': f3, 'f4': f4}
 
 def make_km(kind, opts):
     from klepto.keymaps import keymap, stringmap, picklemap, hashmap, SENTINEL
